@@ -4,7 +4,8 @@
 set -u
 export GOFLAGS=-mod=mod GOPROXY=off GOSUMDB=off GOTOOLCHAIN=local
 export GOMAXPROCS=${GOMAXPROCS:-16}
-VERIF=/verif
+VERIF=$(cd "$(dirname "$0")" && pwd)
+export VERIF_ROOT=$VERIF
 REPO=${VERIF_REPO:-/repo}
 export VERIF_REPO=$REPO
 mkdir -p $VERIF/.bin
